@@ -13,6 +13,7 @@ use crate::types::{DecodedMap, RawToken, SourceMap, SourceMapIndex, SourceMapSec
 use crate::vlq::parse_vlq_segment_into;
 
 const DATA_PREAMBLE: &str = "data:application/json;base64,";
+const DATA_PREAMBLE_UTF8: &str = "data:application/json;charset=utf-8;base64,";
 
 #[derive(PartialEq, Eq)]
 enum HeaderState {
@@ -330,10 +331,15 @@ pub fn decode_slice(slice: &[u8]) -> Result<DecodedMap> {
 
 /// Loads a sourcemap from a data URL
 pub fn decode_data_url(url: &str) -> Result<DecodedMap> {
-    if !url.starts_with(DATA_PREAMBLE) {
-        fail!(Error::InvalidDataUrl);
-    }
-    let data_b64 = &url[DATA_PREAMBLE.len()..];
+    let data_b64 = match url
+        .strip_prefix(DATA_PREAMBLE)
+        .or_else(|| url.strip_prefix(DATA_PREAMBLE_UTF8))
+    {
+        Some(data_b64) => data_b64,
+        None => {
+            fail!(Error::InvalidDataUrl);
+        }
+    };
     let data = data_encoding::BASE64
         .decode(data_b64.as_bytes())
         .map_err(|_| Error::InvalidDataUrl)?;
